@@ -10,6 +10,7 @@ import (
 	"runtime/debug"
 	"sync"
 	"sync/atomic"
+	"time"
 
 	"verif/internal/par"
 	"verif/internal/world"
@@ -67,22 +68,40 @@ func Names(alpha []Call, path []int) []string {
 // panic value and the stack) instead of letting it end the process; the engine of that path is abandoned.
 var OnPanic func(calls []string, p interface{}, stack string)
 
-func guard(names []string, fn func(), dyn ...*[]string) (panicked bool) {
+// HangTimeout bounds one guarded step. A call that does not return within it (a writer slot that was never given
+// back makes the next write wait for lungo's own one-minute timeout, a lock taken twice waits forever) is reported
+// through OnPanic as a violation and its engine is abandoned.
+var HangTimeout = 20 * time.Second
+
+func guard(names []string, fn func(), dyn ...*[]string) (failed bool) {
 	if OnPanic == nil {
 		fn()
 		return false
 	}
-	defer func() {
-		if p := recover(); p != nil {
-			panicked = true
-			if len(dyn) > 0 {
-				names = *dyn[0]
+	done := make(chan bool, 1)
+	go func() {
+		defer func() {
+			if p := recover(); p != nil {
+				if len(dyn) > 0 {
+					names = *dyn[0]
+				}
+				OnPanic(names, p, string(debug.Stack()))
+				done <- true
 			}
-			OnPanic(names, p, string(debug.Stack()))
-		}
+		}()
+		fn()
+		done <- false
 	}()
-	fn()
-	return false
+	select {
+	case failed = <-done:
+		return failed
+	case <-time.After(HangTimeout):
+		if len(dyn) > 0 {
+			names = append([]string{}, (*dyn[0])...)
+		}
+		OnPanic(names, fmt.Sprintf("the step did not return within %v", HangTimeout), "(the goroutine is abandoned)")
+		return true
+	}
 }
 
 // BFS explores all call sequences up to Depth with state deduplication.
